@@ -73,6 +73,15 @@ CLAIMED = {
          "module sets in all load orders, incl. late-arising errors. Not decided: that ToEntry (reflection) establishes the shape, checkErrors/GetErrors "
          "as contracts (callback), the recursion of FixChoice."),
    ref="8 (C04)"),
+ "C19": dict(
+   text=("This family is silent on schedules; what is decided, per function and for all inputs, is the discipline that makes the property true: ghost "
+         "lock state for sync.Mutex/RWMutex (no self-deadlock, unlock only what is held, every function returns with the locks as it found them), "
+         "guarded-field obligations (byNS under nsMu, entryCache under entryCacheMu with the write lock for writes, the typedef dictionary under mu, writes "
+         "to the identity dictionary under its mu) at every access in every function that touches them, `modifies nothing` frames on ReadOnly and "
+         "Namespace, and a go/ssa scan that the package-level tables are written by package initialisation only. Bounded (labelled): a race-detector "
+         "run of concurrent readers and independent pipelines compared with the sequential result. Not decided: interleavings themselves; reads of the "
+         "identity dictionary outside its lock rely on phase separation (after Process), which is not checked."),
+   ref="8 (C19)"),
 }
 
 NOT_REACHED = {}
